@@ -417,6 +417,14 @@ func run(c *driver.Ctx) {
 		}
 		runValidate(c, i, c.CaseRand(i))
 	}
+	nTel := int64(c.N(150, 4000))
+	for k := int64(0); k < nTel; k++ {
+		i := telemetryBase + k
+		if !c.Want(i) {
+			continue
+		}
+		runTelemetry(c, i, c.CaseRand(i))
+	}
 }
 
 func main() {
